@@ -25,7 +25,7 @@ output_language: cpp:h
 exclude_patterns: []
 {di}env:
   transpiler:
-    include_dirs: []
+    include_dirs: {include_dirs}
   view:
     immutable_param_types:
       - std::string
@@ -72,10 +72,24 @@ class Workspace:
         di = '' if cache_enabled else 'di:\n  rogw.tranp.cache.cache.CacheSetting: mc.tranp.workspace.cache_disabled\n'
         tpl = '  - tpl\n' if os.path.isdir(os.path.join(self.root, 'tpl')) else ''
         grammar = 'gram/grammar.lark' if os.path.exists(os.path.join(self.root, 'gram', 'grammar.lark')) else 'data/grammar.lark'
-        text = CONFIG_TEMPLATE.format(grammar=grammar, tpl=tpl, globs='\n'.join(f'  - {g}' for g in input_globs), outs='\n'.join(f'  - {o}' for o in output_dirs), di=di)
+        include_dirs = json.dumps(getattr(self, 'include_dirs', None) or self._read_include_dirs())
+        text = CONFIG_TEMPLATE.format(include_dirs=include_dirs, grammar=grammar, tpl=tpl, globs='\n'.join(f'  - {g}' for g in input_globs), outs='\n'.join(f'  - {o}' for o in output_dirs), di=di)
         with open(os.path.join(self.root, name), 'w') as f:
             f.write(text)
         os.utime(os.path.join(self.root, name), (BASE_MTIME, BASE_MTIME))
+
+    def _read_include_dirs(self):
+        p = os.path.join(self.root, '.include_dirs.json')
+        if os.path.exists(p):
+            with open(p) as f:
+                return json.load(f)
+        return []
+
+    def set_include_dirs(self, dirs) -> None:
+        """env.transpiler.include_dirs of every configuration written from now on (kept in the workspace so that copies agree)."""
+        with open(os.path.join(self.root, '.include_dirs.json'), 'w') as f:
+            json.dump(list(dirs), f)
+        os.utime(os.path.join(self.root, '.include_dirs.json'), (BASE_MTIME, BASE_MTIME))
 
     def write_source(self, rel: str, text: str, mtime: int) -> None:
         p = os.path.join(self.root, rel)
